@@ -328,6 +328,38 @@ def run_config(report, rng, tier):
                     case = dict(function="config.load/write/load", field=field, file_value=v, resolved=repr(getattr(resolved, field)),
                                 differs_after_reload={f: [repr(getattr(resolved, f)), repr(getattr(reloaded, f))] for f in diff})
                     report_failure(report, f"config_roundtrip_all_{field}_{k}", dict(kind="property", case=case))
+        # string options as a user may give them BY FLAG (nothing is parsed on the way in): the driver writes them with the
+        # toml library for the workers. F33: toml 0.10.2 does not write every string so that it reads back
+        def toml_class(v):
+            return "\\x" in v or v == '"' or v.startswith('""') or any(ord(c) < 32 and c not in "\t\n\r" or 127 <= ord(c) < 160 for c in v)
+
+        for field, v in (("family", 'Say "hi"'), ("family", "C:\\fonts\\x-files"), ("family", '"'), ("family", '""Quoted"" Sans'), ("family", "Bell\x07 Sans"), ("pngquant_flags", "--quality 1-2 --ext \\x.png"),
+                         ("fea_file", "feat\\xtra.fea"), ("family", "Tab\there"), ("family", "back\\slash"), ("output_file", "D\x7fL.ttf")):
+            n += 1
+            file_cfg = d / "flagstr.toml"
+            file_cfg.write_text(base_toml)
+            set_flags({field: v})
+            try:
+                resolved = cfgmod.load(file_cfg)
+            finally:
+                set_flags({})
+            report.count(("cfg-flagstr", field, v), True)
+            report.hist("config.mode", "awkward string by flag")
+            case = dict(function="config.load (flag) / write / load", field=field, flag_value=v, resolved=repr(getattr(resolved, field)))
+            if getattr(resolved, field) != v:
+                report_failure(report, f"config_flagstr_{field}", dict(kind="property", case=case))
+                return
+            out = d / "flagstr_out.toml"
+            try:
+                cfgmod.write(out, resolved)
+                reloaded = cfgmod.load(out)
+                differs = None if reloaded == resolved else repr(getattr(reloaded, field))
+            except Exception as ex:  # noqa
+                differs = f"{type(ex).__name__}: {ex}"
+            if differs is not None:
+                case["after_write_and_load"] = differs
+                if report_failure(report, f"config_flagstr_roundtrip_{field}", dict(kind="property", case=case), "F33-toml-strings-do-not-round-trip" if toml_class(v) else None):
+                    return
                     return
         # multiple axes / masters
         src2 = d / "b" / "emoji_u1f600.svg"
